@@ -446,6 +446,9 @@ PROPS["C01"] = {
         "Lace.C01.image_word",
         "Lace.C01.image_depends_on_labels_only",
         "Lace.C01.layout_irrelevant_of_assemble_image",
+        "Lace.C01.parse_stmt_tokens",
+        "Lace.C01.airOf_words",
+        "Lace.C01.stmt_tokens_to_spec",
     ],
     "compare": cmp_default,
     "classify": enc_classify,
